@@ -47,6 +47,9 @@ const (
 
 	// RawSocket header ID.
 	magic = 0x7f
+
+	// Largest payload length that fits the 24-bit length of a frame header.
+	maxFrameLen = 1<<24 - 1
 )
 
 // ConnectRawSocketPeer creates a new rawSocketPeer with the specified config,
@@ -213,7 +216,7 @@ sendLoop:
 				rs.log.Print(err)
 				continue sendLoop
 			}
-			if len(b) > rs.sendLimit {
+			if len(b) > rs.sendLimit || len(b) > maxFrameLen {
 				rs.log.Println("Message size", len(b), "exceeds limit of",
 					rs.sendLimit)
 				continue sendLoop
